@@ -136,3 +136,18 @@ Example C06_examples_ok :
   kmpSearch [A; B; C] [D] = Ok 3 /\
   kmpTable [A; B; A; B; A; C] (repeat 0 6) = Ok [-1; 0; 0; 1; 2; 3].
 Proof. vm_compute. repeat split; reflexivity. Qed.
+
+(** ** the Morton-key limit (finding F11): the executable model with the limit ([snapPolygonFull], the one the
+    correspondence runs) equals the plain model for deepest levels up to 32 — so every other theorem applies
+    there — and above that an in-grid polygon makes SnapPolygon panic (NZTM2000Quad tile matrix 21 = level 33;
+    replayed on the implementation) *)
+From Texel Require Import Index.ProofsInsert Snap.ModelFull Snap.ProofsFull.
+Theorem C06_full_model_agrees_upto_level_32 : forall g P levels cfg, (gdeep g <= 32)%nat ->
+  snapPolygonFull g P levels cfg = snapPolygon g P levels cfg.
+Proof. exact snapPolygonFull_eq. Qed.
+Print Assumptions C06_full_model_agrees_upto_level_32.
+
+Theorem C06_deep_level_refuted : exists g P levels cfg,
+  0 < gres g /\ Forall (insideGrid g) (concat P) /\ snapPolygonFull g P levels cfg = Err MustToZ.
+Proof. exact deep_level_refuted. Qed.
+Print Assumptions C06_deep_level_refuted.
